@@ -56,6 +56,15 @@ def random_configs(tier, rng):
             for nrbe in ([1] if tier == 'quick' else [1, 2]):
                 out.append((dict(D=2, lmin=lmin, lmax=lmax, version=version, nrbe=nrbe, chain=rng.randint(0, 3), maxleaves=60,
                                  name='corner chain v%d (%d,%d) nrbe=%d' % (version, lmin, lmax, nrbe)), 7 if tier == 'quick' else 9))
+    # single-dimension splitting: dense selections mixing splits and lmax-raising extends in one refinement round
+    for i in range(8 if tier == 'quick' else 40):
+        out.append((dict(D=rng.choice([2, 2, 3]), lmin=1, lmax=2, version=rng.choice([0, 0, 1, 2]), nrbe=1, single=True, dense=True, maxleaves=60,
+                         name='single-dim dense %d' % i), 4))
+    # natural refinement (library error estimator) of a symmetric peak near the diagonal: ties between dimensions
+    for peak in ([(0.33, 20.0), (0.6, 40.0)] if tier == 'quick' else [(0.33, 20.0), (0.6, 40.0), (0.5, 30.0), (0.25, 60.0), (0.7, 15.0)]):
+        for single in (True, False):
+            out.append((dict(D=2, lmin=1, lmax=2, version=0, nrbe=1, single=single, peak=peak, maxleaves=80,
+                             name='natural peak %s single=%s' % (peak, single)), 6 if tier == 'quick' else 9))
     if tier == 'thorough':
         for version in (0, 1, 2):
             out.append((dict(D=3, lmin=1, lmax=2, version=version, nrbe=1, chain=rng.randint(0, 7), maxleaves=80, name='corner chain 3D v%d' % version), 5))
@@ -135,11 +144,11 @@ def replay(path, seed):
         r = json.load(f)['replay']
     cfg = r['script']['cfg']
     run_ = P.ESRun(cfg['D'], cfg['lmin'], cfg['lmax'], version=cfg['version'], nrbe=cfg['nrbe'], auto=cfg['auto'], single=cfg['single'],
-                   boundary=cfg['boundary'], a=cfg['a'], b=cfg['b'], margin=cfg['margin'])
+                   boundary=cfg['boundary'], a=cfg['a'], b=cfg['b'], margin=cfg['margin'], peak=cfg.get('peak'))
     run_.evaluate()
     evs = [P.observe(run_)]
     for B in r['script']['steps']:
-        if len(B) != len(run_.leaves()):
+        if B is not None and len(B) != len(run_.leaves()):
             print('replay of an edge-replay case: only the last step is recorded; re-run the check instead')
             break
         evs.append(P.do_step(run_, B))
